@@ -758,6 +758,10 @@ pub fn run(rep: &mut Report) {
         for m in (0..(1u32 << np)).filter(|&m| canon_mask(n, m) == m) {
             for adaptive in [true, false] {
                 for temp in [5.0f64, 0.5] {
+                    // quick: the four-vertex graphs (large choice trees) with the default temperature only
+                    if quick && n == 4 && temp != 5.0 {
+                        continue;
+                    }
                     cfgs.push((n, m, adaptive, temp));
                 }
             }
